@@ -278,6 +278,14 @@ int main(int argc, char** argv) {
       for (size_t i = 0; i < V.size(); i++) for (double s : NS) for (double t : NS) check_nested(d, V[i], V[(i + 1) % V.size()], s, t, idx++);
     }
   }
+  // division by subnormal scalars (powers of two and others): the quotient is an ordinary number when the components are tiny too
+  for (int d = 2; d <= 6; d++) for (double x : {std::ldexp(1.0, -1074), std::ldexp(1.0, -1050), -std::ldexp(1.0, -1030), 3e-320, -7.3e-310, std::ldexp(1.0, -1023), std::ldexp(1.0, 1023)}) for (double vs : {1e-318, 3e-312, 1.0}) {
+    std::vector<double> c = scaled(probe(d, 1), vs / maxabs(probe(d, 1))); bool rep = true; for (double v : c) if (!std::isfinite(v / x)) rep = false; if (!rep) continue;
+    count("evaluations"); distinct(ref::fnv(&x, 8, d * 7) ^ ref::fnv(&vs, 8, 3));
+    SU_vector v = mkvec(d, c); std::vector<double> cc = comps(v); v /= x; bool ok = true;
+    for (int k = 0; k < d * d; k++) { double want = cc[k] / x; if (!(ref::close_ulp(v[k], want, 2, 4 * 4.9406564584124654e-324))) ok = false; }
+    if (!ok) violation(dsig("operator/=:subnormal-divisor", d), J().i("d", d).num("divisor", x).arr("components", cc).arr("got", comps(v)).done());
+  }
   // == across all dimension pairs (and with empty vectors)
   for (int d1 = 2; d1 <= 6; d1++) for (int d2 = 2; d2 <= 6; d2++) {
     std::vector<std::vector<double>> s1 = {std::vector<double>(d1 * d1, 0.0), unit(d1, 0), unit(d1, 1), probe(d1, 0)}, s2 = {std::vector<double>(d2 * d2, 0.0), unit(d2, 0), unit(d2, 1), probe(d2, 0)};
